@@ -32,6 +32,7 @@ func runC12(r *Run, verifDir string) {
 	c12A3Negotiate(r)
 	c12A4(r)
 	c12A5(r)
+	freshResponseMessage(r, "C12.A6")
 }
 
 func c12A1(r *Run, reg *Registry) {
@@ -455,6 +456,7 @@ func runC13(r *Run, verifDir string) {
 	r.Rule("C13.N6", "no common version -> error, before any store", 1)
 	c13N7(r)
 	c13N8(r)
+	c13N9(r)
 	if nv == nil {
 		r.Unk("C13.N1", "kmipclient.Client.negotiateVersion", token.NoPos, "anchor missing")
 		return
@@ -1400,5 +1402,92 @@ func c12A5(r *Run) {
 	}
 	if n == 0 {
 		r.OK("C12.A5", "kmipclient/no-empty-panicking-call", token.NoPos, "no slices.Max/Min/MaxFunc/MinFunc call in the client")
+	}
+}
+
+// freshResponseMessage: every response handed to a caller lives in memory of its own. The client's receive message
+// (recvMsg.DecodeTTLV) decodes each message into a value it allocates for that message (`new(T)`), never into a field
+// of the receive message itself or another object that outlives the iteration: otherwise every result a caller still
+// holds (a BatchResult, a failed item not yet unwrapped) is overwritten by the next response on the connection.
+func freshResponseMessage(r *Run, rule string) {
+	p := r.P
+	r.Rule(rule, "each decoded response is allocated for that message: results held by callers never alias the next response", 1)
+	fn := p.Func("kmipclient", "recvMsg", "DecodeTTLV")
+	key := "kmipclient.recvMsg.DecodeTTLV/fresh-message"
+	if fn == nil || len(fn.Params) == 0 {
+		r.Unk(rule, key, token.NoPos, "anchor missing")
+		return
+	}
+	n, bad := 0, token.NoPos
+	allInstrs(fn, func(in ssa.Instruction) {
+		st, ok := in.(*ssa.Store)
+		if !ok {
+			return
+		}
+		fa, ok := st.Addr.(*ssa.FieldAddr)
+		if !ok || fa.X != ssa.Value(fn.Params[0]) {
+			return
+		}
+		mi, ok := st.Val.(*ssa.MakeInterface)
+		if !ok {
+			return
+		}
+		if _, isPtr := mi.X.Type().Underlying().(*types.Pointer); !isPtr {
+			return
+		}
+		n++
+		if al, isAlloc := mi.X.(*ssa.Alloc); !isAlloc || !al.Heap {
+			bad = st.Pos()
+		}
+	})
+	switch {
+	case bad.IsValid():
+		r.Bad(rule, key, bad, "the receive message decodes a response into storage that is not allocated for that message (a field of the receive message, a recycled value): everything a caller still holds from an earlier response on the connection — a failed batch item not yet unwrapped, a payload — is overwritten by the next response, so a failure can turn into the later success")
+	case n == 0:
+		r.Unk(rule, key, fn.Pos(), "no destination message assigned in DecodeTTLV")
+	default:
+		r.OK(rule, key, fn.Pos(), "%d destination(s), each a new(T) allocated in this call", n)
+	}
+}
+
+// c13N9: an Option is a value a caller may keep and pass to several Dial calls, so applying it must not change it:
+// the closure returned by a With* function of the client never writes one of its captured variables (building the
+// merged version list in the captured parameter makes the option carry the whole set of the Dial it was last used
+// in into the next one, which then offers versions outside its configured set).
+func c13N9(r *Run) {
+	p := r.P
+	r.Rule("C13.N9", "client options are reusable values: an option closure never writes its captured variables", 3)
+	n := 0
+	for _, fn := range pkgFuncs(p, "kmipclient") {
+		if fn.Parent() == nil || len(fn.FreeVars) == 0 {
+			continue
+		}
+		par := fn.Parent()
+		if par.Parent() != nil || !strings.HasPrefix(par.Name(), "With") && par.Name() != "EnforceVersion" {
+			continue
+		}
+		// the closure is what the With* function returns (type Option)
+		if res := par.Signature.Results(); res.Len() != 1 || typeName(res.At(0).Type()) != "Option" {
+			continue
+		}
+		n++
+		key := fnKey(fn) + "/pure"
+		bad := token.NoPos
+		name := ""
+		allInstrs(fn, func(in ssa.Instruction) {
+			if st, ok := in.(*ssa.Store); ok {
+				if fv, ok := st.Addr.(*ssa.FreeVar); ok {
+					bad, name = st.Pos(), fv.Name()
+				}
+			}
+		})
+		if bad.IsValid() {
+			r.Bad("C13.N9", key, bad, "the option closure of %s assigns its captured variable %s: the Option value changes when it is applied, so reusing it for a second Dial (after it was combined with other options in the first) configures that client with state left over from the first — e.g. a version list containing versions the second client was not configured with", par.Name(), name)
+		} else {
+			r.OK("C13.N9", key, fn.Pos(), "no captured variable is written")
+		}
+	}
+	if n == 0 {
+		r.Unk("C13.N9", "kmipclient/options", token.NoPos, "no option closure found")
 	}
 }
